@@ -67,7 +67,7 @@ def run(ctx: Ctx):
     ctx.guarded(dispatch_agree, ctx)
     res.rule("DECIDING-ENTRY", "svd_flip: in each branch the sign vector is the sign of entries D[i, j] selected by argmax(abs(D), axis=a); the arg-max index is used as an index into axis a, it is paired with an enumeration of the other axis, the signs are applied along the axis they were decided for, and no arithmetic combination of entries (which can vanish for a non-zero vector) is used", floor=2)
     ctx.guarded(deciding_entry, ctx)
-    res.rule("DIV-GUARDED", "in the SVD methods listed in SVD_FUNS every division has a denominator that is strictly positive by construction (a value clipped / floored at a positive constant or machine epsilon, its square root, reshapes of it): singular vectors obtained by dividing by computed singular values stay finite for exactly singular input", floor=2)
+    res.rule("DIV-GUARDED", "in the SVD methods listed in SVD_FUNS and in make_svd_non_negative every division has a denominator that is strictly positive: by construction (a value clipped / floored at a positive constant or machine epsilon, its square root, reshapes of it) or because the division sits under `if P > Q` where the denominator is a factor of the product P of norms and Q >= 0: singular vectors / NNDSVD columns obtained by dividing by computed singular values or norms stay finite for exactly singular input and one-signed singular vectors", floor=6)
     ctx.guarded(div_guarded, ctx)
     res.rule("NONNEG-OPTION", "sign analysis ({non-negative, any} abstract interpretation, the domain of C10): for arbitrary (signed) data and arbitrary singular vectors, make_svd_non_negative returns two entrywise non-negative factors under each of its variants, and svd_interface with the non-negative option returns exactly those", floor=4)
     ctx.guarded(nonneg_option, ctx)
@@ -327,10 +327,49 @@ def div_guarded(ctx: Ctx):
     if not names:
         raise AnalysisError("DIV-GUARDED: SVD_FUNS vanished")
     n = 0
-    for nm in names:
-        if not ctx.repo.has_func(S + nm):
-            continue
-        f = ctx.repo.func(S + nm)
+    # the methods of SVD_FUNS and the NNDSVD post-processing (every function of the module that divides)
+    scope = [ctx.repo.func(S + nm) for nm in names if ctx.repo.has_func(S + nm)]
+    scope += [g for g in ctx.repo.functions.values() if g.module is mod and g.cls is None and g not in scope and g.name == "make_svd_non_negative"]
+    for f in scope:
+        par = {}
+        for p_ in ast.walk(f.node):
+            for c_ in ast.iter_child_nodes(p_):
+                par[id(c_)] = p_
+
+        def guarded_by_branch(den, st):
+            """`den` is a factor of a product P of quantities that are >= 0 by construction (norms, absolute
+            values, square roots), and the statement sits in the body of `if P > Q` with Q >= 0 by construction
+            or a non-negative constant: then P > 0, hence every factor of P is > 0."""
+            if not isinstance(den, ast.Name):
+                return None
+            cur = st
+            while id(cur) in par:
+                p_ = par[id(cur)]
+                if isinstance(p_, ast.If) and any(cur is b_ for b_ in p_.body):
+                    t = p_.test
+                    if isinstance(t, ast.Compare) and len(t.ops) == 1 and isinstance(t.ops[0], (ast.Gt, ast.Lt)):
+                        big, small = (t.left, t.comparators[0]) if isinstance(t.ops[0], ast.Gt) else (t.comparators[0], t.left)
+                        bigr, smallr = _resolve_at(big, p_, f.node, depth=1), _resolve_at(small, p_, f.node, depth=1)
+
+                        def factors(e):
+                            if isinstance(e, ast.BinOp) and isinstance(e.op, ast.Mult):
+                                return factors(e.left) + factors(e.right)
+                            return [e]
+
+                        def nonneg(e):
+                            if isinstance(e, ast.Constant):
+                                return isinstance(e.value, (int, float)) and e.value >= 0
+                            r = _resolve_at(e, p_, f.node)
+                            if isinstance(r, ast.BinOp) and isinstance(r.op, ast.Mult):
+                                return nonneg(r.left) and nonneg(r.right)
+                            return isinstance(r, ast.Call) and _cn(r) in ("norm", "abs", "sqrt", "absolute")
+
+                        fs = factors(bigr)
+                        if any(isinstance(x, ast.Name) and x.id == den.id for x in fs) and all(nonneg(x) for x in fs) and nonneg(smallr):
+                            return src(t)
+                cur = p_
+            return None
+
         stmts = [st for st in ast.walk(f.node) if isinstance(st, ast.stmt) and not isinstance(st, (ast.If, ast.For, ast.While, ast.With, ast.Try, ast.FunctionDef))]
         for st in stmts:
             for d in ast.walk(st):
@@ -348,7 +387,11 @@ def div_guarded(ctx: Ctx):
                 n += 1
                 full = _resolve_at(den, st, f.node)
                 ok = _strictly_positive(full)
-                res.instance("DIV-GUARDED", f"{f.name}: / {src(den)[:40]}", sample={"denominator": src(full)[:100], "ok": ok})
+                branch = None
+                if not ok:
+                    branch = guarded_by_branch(den, st)
+                    ok = branch is not None
+                res.instance("DIV-GUARDED", f"{f.name}: / {src(den)[:40]}", sample={"denominator": src(full)[:100], "positive_under": branch, "ok": ok})
                 if not ok:
                     ctx.finding("DIV-GUARDED", f, den, f"{f.name} divides by `{src(den)[:60]}` = `{src(full)[:100]}`, which is not bounded away from zero: for an exactly singular input (a zero eigenvalue / singular value) the quotient is 0/0 or x/0 and the returned singular vectors contain NaN / inf instead of an orthonormal completion", construct=f"{f.name}: / {src(den)[:50]} unguarded")
     if n == 0:
